@@ -4,7 +4,7 @@ from ref import pools, s2c, ecdsa
 
 ID = "C15"
 LEVEL = "exploration"
-CONFIGS = {"quick": ["san", "san_nv"], "thorough": ["san", "san_nv", "mx_i64", "mx_noasm"]}
+CONFIGS = {"quick": ["san", "san_nv", "mx_i64"], "thorough": ["san", "san_nv", "mx_i64", "mx_noasm"]}
 RULE = ("s2c_sign / verify_commit / host_commit / signer_commit / anti_exfil_sign / host_verify records over pool keys, messages (incl. >= n) and data; "
         "repeated protocol runs with equal and different host randomness, on contexts with the default and with a replaced (correct) SHA-256 "
         "compression function on either side; openings from the parser on pool strings; single-bit flips of signature, datum and opening; outputs "
@@ -131,7 +131,7 @@ def wl_openings(ctx, config):
                         ctx.check(vc.ret == 1, "s2c_verify_commit:constructed_commitment_rejected", s.hex(), config)
 
 def run(ctx):
-    for config in ctx.configs:
+    for config in ctx.cfgs():
         wl_protocol(ctx, config)
         alt_calls(ctx, config)
         wl_openings(ctx, config)
